@@ -848,6 +848,10 @@ class Netlist(NetlistOpsMixin, NetlistMixin, NetlistSimplifyMixin):
                     ' reactive components: %s.  Convert to ac, dc, transient,'
                     ' or laplace domain first.' % ', '.join(self.reactances))
             kind = 'time'
+        elif kind in ('laplace', 's') and self.is_IVP:
+            # The solution includes the initial conditions (see
+            # TransformDomains), so the equations need to as well.
+            kind = 'ivp'
 
         return SubNetlist(self, kind).mna
 
